@@ -136,7 +136,7 @@ def check(res, tier, seed):
         binary = C.build_harness(wd, race=True)
         n = 16 if tier == "quick" else 120
         # concurrent workloads, and teardown paths with peers that keep sending (late responses racing Close)
-        for fams in (["conc", "closures", "hub", "nest", "streamtear", "bursteof", "linkend", "cancel", "relay", "enumrace"],):
+        for fams in (["conc", "closures", "hub", "nest", "streamtear", "bursteof", "linkend", "cancel", "relay", "enumrace", "sharedhooks"],):
             recs, rc, o = C.run_job(binary, wd, "race", dict(family="sys", seed=seed, n=n, cases=fams, params=dict(percase=10)), timeout=1500,
                                     env_extra=dict(GORACE="halt_on_error=0"))
             for m in re.finditer(r"WARNING: DATA RACE.*?={18}", o, re.S):
@@ -147,12 +147,19 @@ def check(res, tier, seed):
                 if "concurrent map" in o:
                     race_reports.append(o[-3000:])
             res.coverage["race_run_records"] = len(recs)
+            for r in recs:
+                for note in r.get("notes") or []:
+                    if note.startswith("HOOKS-VALUE-WRITTEN") and not any("HOOKS-VALUE-WRITTEN" in x for x in race_reports):
+                        race_reports.append(note)
     except C.CheckError as e:
         res.notes.append("race build failed: %s" % e)
         raise
     for rep in race_reports[:3]:
         hits += 1
         where = re.findall(r"(/[\w/\.\-]*panrpc/go/pkg/\S+:\d+|pkg/\w+/\w+\.go:\d+)", rep)
+        if rep.startswith("HOOKS-VALUE-WRITTEN"):
+            res.violation("shared-hooks-written", "implementation violates C20: " + rep[len("HOOKS-VALUE-WRITTEN "):], dict(kind="sys", family="sharedhooks", note=rep))
+            continue
         res.violation("race:" + (where[0].split("/")[-1] if where else "?"), "the race detector reports unsynchronised conflicting accesses inside panrpc: %s" % (where[:4],),
                       dict(kind="race", report=rep))
     m = re.search(r"D\s*=\s*(true|false)", out)
